@@ -41,16 +41,20 @@ def translate(ctx):
 
 
 # ------------------------------------------------------------------ builds
+MINI_LAPACK = os.path.join(vbuild.VERIF, "harness", "mini_lapack.cpp")     # instrumented with the driver (no system LAPACK under TSan)
+
+
 def build(thread_safe):
-    defs = ["ADEPT_STORAGE_THREAD_SAFE"] if thread_safe else []
-    return vbuild.build("threads", DRV, defines=defs, cxx="clang++-14", san="tsan",
+    defs = (["ADEPT_STORAGE_THREAD_SAFE"] if thread_safe else []) + ["HAVE_LAPACK=1"]
+    return vbuild.build("threads", [DRV, MINI_LAPACK], defines=defs, cxx="clang++-14", san="tsan",
                         extra=["-std=c++17", "-U" + vbuild.GUARD], link=["-pthread"], no_openmp=True)
 
 
 def build_omp():
     """g++ -fopenmp build without ThreadSanitizer (libgomp is not instrumented): the workloads run by the members of one
     OpenMP team; ASan/UBSan stay on as observers"""
-    return vbuild.build("threads-omp", DRV, defines=[], san="none", extra=["-std=c++17", "-U" + vbuild.GUARD], link=["-pthread"])
+    return vbuild.build("threads-omp", [DRV, MINI_LAPACK], defines=["HAVE_LAPACK=1"], san="none",
+                        extra=["-std=c++17", "-U" + vbuild.GUARD], link=["-pthread"])
 
 
 # ------------------------------------------------------------------ TSan reports
